@@ -103,7 +103,7 @@ pub fn canon_hashes(r: &RunResult, keep_via: bool) -> Vec<(u64, u64)> {
     for e in &r.log {
         let k = match &e.k {
             world::EvKind::DlCount { .. } | world::EvKind::Graph { .. } => continue,
-            world::EvKind::Inv { who, k, op, a, mid, ms, via, budget } => world::EvKind::Inv { who: *who, k: *k, op: *op, a: *a, mid: *mid, ms: *ms, via: if keep_via { via.clone() } else { String::new() }, budget: *budget },
+            world::EvKind::Inv { who, k, op, a, mid, us, via, budget } => world::EvKind::Inv { who: *who, k: *k, op: *op, a: *a, mid: *mid, us: *us, via: if keep_via { via.clone() } else { String::new() }, budget: *budget },
             other => other.clone(),
         };
         out.push((e.step, h64(&(e.t, e.step, e.task, &k))));
